@@ -2,6 +2,7 @@ import Mp4ff.Model.Nalu
 import Mp4ff.Lemmas.ScanEq
 import Mp4ff.Lemmas.C14Conv
 import Mp4ff.Lemmas.C14Conv2
+import Mp4ff.Expect.Transcribed
 /-!
 # C14 — NAL unit framing conversions preserve the NAL unit sequence
 Property theorems.  (Scanner equivalence, conversion and walker theorems are added from
@@ -130,5 +131,10 @@ example : UnitsOK [(4, [0x67, 1, 2]), (3, [0x68, 0, 0x80]), (4, [0x65])] := by
     simp [WFNalu, IsBytes, EmulationFree]
 
 example : probe [0x65, 0, 0, 1, 0x41] 1 = some ⟨3, 4⟩ := by decide
+
+/-- the Go functions the models of this property transcribe (committed table `spec/transcribed.json`, checked against
+    the current source by the extractor on every run) all still exist -/
+theorem model_sources_exist :
+    (["Nalu.lean"] : List String).all Mp4ff.Expect.presentFor = true := by decide +kernel
 
 end Mp4ff.Nalu.C14
